@@ -96,6 +96,11 @@ def r2_success_is_reread(ctx):
         v = r.value
         ok = False
         why = ""
+        if isinstance(v, ast.Name):
+            # a local holding what was read from the table earlier on this path
+            defs = [s.value for s in ast.walk(miss.node) if isinstance(s, ast.Assign) and any(isinstance(t, ast.Name) and t.id == v.id for t in s.targets)]
+            if len(defs) == 1 and isinstance(defs[0], ast.Subscript):
+                v = defs[0]
         if isinstance(v, ast.Subscript) and isinstance(v.value, ast.Name) and v.value.id == rv:
             shapes = key_shapes(miss.node, v.slice, params)
             ok = shapes <= {"param", "tail"}
